@@ -11,6 +11,9 @@
 //	chain  : custom base.SlotChain of recording slots only                       (C16)
 //	stat   : custom chain of recording slots + the real stat prepare / stat slot  (C01 i)
 //	global : the default global chain + isolation / hot-parameter rules           (C01 ii)
+//	multi  : SEVERAL chains alive at once, each obtained from one of the library's constructors
+//	         (op "mchain": base.NewSlotChain / api.BuildDefaultSlotChain / api.GlobalSlotChain) and
+//	         extended afterwards in any interleaving; slot / entry ops name their chain (field c) (C16)
 package ecx
 
 import (
@@ -99,6 +102,10 @@ type Engine struct {
 	sBlocked int64
 
 	globalRec *slot
+
+	// mode "multi": the chains of the running trace by scenario id, and how each was obtained
+	chains    map[int64]*base.SlotChain
+	chainKind map[int64]string
 }
 
 func NewEngine(clk *hx.VClock, tr *hx.Trace, modes ...string) *Engine {
@@ -122,7 +129,13 @@ type slot struct {
 	own  *base.TokenResult
 	rp   base.StatPrepareSlot
 	rs   base.StatSlot
+	// a recording slot added to api.GlobalSlotChain() (mode "multi") cannot be removed again: outside the trace that
+	// added it, it lets everything pass and records nothing
+	trn    int64
+	global bool
 }
+
+func (s *slot) dormant() bool { return s.global && s.trn != s.g.trn }
 
 func (s *slot) Order() uint32 { return s.ord }
 
@@ -138,6 +151,9 @@ func (s *slot) rec(m hx.M) {
 }
 
 func (s *slot) Prepare(ctx *base.EntryContext) {
+	if s.dormant() {
+		return
+	}
 	_, code := flagOf(ctx)
 	if !s.g.stress {
 		s.rec(hx.M{"k": "pre", "id": s.id, "m": "prepare"})
@@ -155,6 +171,9 @@ func (s *slot) Prepare(ctx *base.EntryContext) {
 }
 
 func (s *slot) Check(ctx *base.EntryContext) *base.TokenResult {
+	if s.dormant() {
+		return nil
+	}
 	eid, code := flagOf(ctx)
 	if !s.g.stress {
 		s.rec(hx.M{"k": "rule", "id": s.id, "m": "check"})
@@ -221,6 +240,9 @@ func (s *slot) Check(ctx *base.EntryContext) *base.TokenResult {
 }
 
 func (s *slot) OnEntryPassed(ctx *base.EntryContext) {
+	if s.dormant() {
+		return
+	}
 	eid, _ := flagOf(ctx)
 	if s.g.stress {
 		if s.beh != "real" {
@@ -238,6 +260,9 @@ func (s *slot) OnEntryPassed(ctx *base.EntryContext) {
 }
 
 func (s *slot) OnEntryBlocked(ctx *base.EntryContext, be *base.BlockError) {
+	if s.dormant() {
+		return
+	}
 	if s.g.stress {
 		if s.beh != "real" {
 			atomic.AddInt64(&s.g.sBlocked, 1)
@@ -256,6 +281,9 @@ func (s *slot) OnEntryBlocked(ctx *base.EntryContext, be *base.BlockError) {
 }
 
 func (s *slot) OnCompleted(ctx *base.EntryContext) {
+	if s.dormant() {
+		return
+	}
 	eid, _ := flagOf(ctx)
 	if s.g.mode == "global" {
 		// the flag is not ours to use on the global chain: identify the entry by its pointer
@@ -532,6 +560,7 @@ func (g *Engine) opNew(s hx.M) {
 	g.stress = false
 	g.nodes = nil
 	g.chain = nil
+	g.chains, g.chainKind = map[int64]*base.SlotChain{}, map[int64]string{}
 	g.emptyTok = hx.Str(s, "empty")
 	_ = isolation.ClearRules()
 	_ = hotspot.ClearRules()
@@ -575,34 +604,82 @@ func (g *Engine) opNew(s hx.M) {
 		if _, err := hotspot.LoadRules(hot); err != nil {
 			hx.Fatal("hotspot.LoadRules: %v", err)
 		}
+	case "multi":
+		// chains are made by "mchain" ops
 	default:
 		g.chain = base.NewSlotChain()
 	}
 }
 
+// opMChain obtains a chain from one of the library's own constructors; it is extended by later slot ops that name it.
+func (g *Engine) opMChain(s hx.M) {
+	if g.mode != "multi" {
+		hx.Fatal("mchain op outside mode multi")
+	}
+	c, kind := hx.Int(s, "c"), hx.Str(s, "kind")
+	if g.chains[c] != nil {
+		hx.Fatal("chain %d made twice", c)
+	}
+	switch kind {
+	case "new":
+		g.chains[c] = base.NewSlotChain()
+	case "default":
+		g.chains[c] = api.BuildDefaultSlotChain()
+	case "global":
+		for _, k := range g.chainKind {
+			if k == "global" {
+				hx.Fatal("the global chain is one chain: name it once per trace")
+			}
+		}
+		g.chains[c] = api.GlobalSlotChain()
+	default:
+		hx.Fatal("bad constructor kind %q", kind)
+	}
+	g.chainKind[c] = kind
+	g.Tr.Emit(hx.M{"op": "mchain", "c": c, "kind": kind})
+}
+
+// chainOf: the chain an op refers to (mode multi: field c; otherwise the one chain of the trace, nil in mode global)
+func (g *Engine) chainOf(s hx.M) *base.SlotChain {
+	if g.mode == "multi" {
+		ch := g.chains[hx.Int(s, "c")]
+		if ch == nil {
+			hx.Fatal("op names unknown chain %d", hx.Int(s, "c"))
+		}
+		return ch
+	}
+	return g.chain
+}
+
 func (g *Engine) opSlot(s hx.M) {
-	if g.chain == nil {
+	chain := g.chainOf(s)
+	if chain == nil {
 		hx.Fatal("slot op without custom chain")
 	}
 	g.nslot++
-	sl := &slot{g: g, kind: hx.Str(s, "k"), id: g.nslot, ord: uint32(hx.Int(s, "ord")), beh: hx.Str(s, "beh"), bm: hx.Str(s, "bm")}
+	sl := &slot{g: g, kind: hx.Str(s, "k"), id: g.nslot, ord: uint32(hx.Int(s, "ord")), beh: hx.Str(s, "beh"), bm: hx.Str(s, "bm"),
+		trn: g.trn, global: g.mode == "multi" && g.chainKind[hx.Int(s, "c")] == "global"}
 	switch sl.kind {
 	case "pre":
 		if sl.beh == "real" {
 			sl.rp = stat.DefaultResourceNodePrepareSlot
 		}
-		g.chain.AddStatPrepareSlot(sl)
+		chain.AddStatPrepareSlot(sl)
 	case "rule":
-		g.chain.AddRuleCheckSlot(sl)
+		chain.AddRuleCheckSlot(sl)
 	case "stat":
 		if sl.beh == "real" {
 			sl.rs = stat.DefaultSlot
 		}
-		g.chain.AddStatSlot(sl)
+		chain.AddStatSlot(sl)
 	default:
 		hx.Fatal("bad slot kind %q", sl.kind)
 	}
-	g.Tr.Emit(hx.M{"op": "slot", "k": sl.kind, "ord": int64(sl.ord), "id": sl.id, "beh": sl.beh, "bm": sl.bm})
+	out := hx.M{"op": "slot", "k": sl.kind, "ord": int64(sl.ord), "id": sl.id, "beh": sl.beh, "bm": sl.bm}
+	if g.mode == "multi" {
+		out["c"] = hx.Int(s, "c")
+	}
+	g.Tr.Emit(out)
 }
 
 func mkArgs(toks []string) []interface{} {
@@ -629,8 +706,8 @@ func strList(v interface{}) []string {
 
 func (g *Engine) entryOpts(eid int64, s hx.M) []api.EntryOption {
 	opts := []api.EntryOption{}
-	if g.chain != nil {
-		opts = append(opts, api.WithSlotChain(g.chain), api.WithFlag(int32(eid)*8+soCode[hx.Str(s, "so")]))
+	if chain := g.chainOf(s); chain != nil {
+		opts = append(opts, api.WithSlotChain(chain), api.WithFlag(int32(eid)*8+soCode[hx.Str(s, "so")]))
 	}
 	if _, ok := s["b"]; ok {
 		opts = append(opts, api.WithBatchCount(uint32(hx.Int(s, "b"))))
@@ -651,7 +728,7 @@ func (g *Engine) opEntry(s hx.M) {
 	g.neid++
 	eid := g.neid
 	so := hx.Str(s, "so")
-	if _, ok := soCode[so]; !ok && g.chain != nil {
+	if _, ok := soCode[so]; !ok && g.mode != "global" {
 		hx.Fatal("bad scripted outcome %q", so)
 	}
 	res := hx.Str(s, "res")
@@ -694,6 +771,9 @@ func (g *Engine) opEntry(s hx.M) {
 		"unh": unh, "hot": g.hot[res], "blocked": be != nil, "admitted": e != nil, "esc": esc, "calls": g.takeLog()}
 	if _, ok := s["b"]; ok {
 		out["b"] = hx.Int(s, "b")
+	}
+	if g.mode == "multi" {
+		out["c"] = hx.Int(s, "c")
 	}
 	if be != nil {
 		g.berrs = append(g.berrs, held{eid, be})
@@ -799,15 +879,19 @@ func (g *Engine) opStress(s hx.M) {
 				if rng.Intn(5) == 0 {
 					// two goroutines exit the SAME entry at the same instant: it is completed exactly once all the same
 					var both sync.WaitGroup
-					var go2 int32
+					var go2, ready int32
 					both.Add(1)
 					go func() {
 						defer both.Done()
 						defer func() { recover() }()
+						atomic.StoreInt32(&ready, 1)
 						for atomic.LoadInt32(&go2) == 0 {
 						}
 						le.e.Exit()
 					}()
+					for atomic.LoadInt32(&ready) == 0 { // the helper is running and spinning before either Exit starts
+						runtime.Gosched()
+					}
 					atomic.StoreInt32(&go2, 1)
 					le.e.Exit()
 					both.Wait()
@@ -1020,6 +1104,8 @@ func (g *Engine) Run(scn []hx.M) {
 		switch op := hx.Str(s, "op"); op {
 		case "new":
 			g.opNew(s)
+		case "mchain":
+			g.opMChain(s)
 		case "slot":
 			g.opSlot(s)
 		case "entry":
